@@ -8,6 +8,7 @@ prints one `VIOLATION property=<id> replay=<path>` line per new violation signat
 Exit 2 = engine/build error (never used to hide a verdict).
 """
 import argparse
+import fnmatch
 import json
 import os
 import re
@@ -43,6 +44,13 @@ def load_known():
             elif line.startswith("fixed:"):
                 fixed.append(line)
     return known, fixed
+
+
+def sig_matches(pattern, sig):
+    """a known-finding signature is literal, or a glob (only '*' is special) when it contains a '*'"""
+    if "*" in pattern:
+        return fnmatch.fnmatchcase(sig, pattern.replace("[", "[[]"))
+    return pattern == sig
 
 
 def exe_spec(name):
@@ -360,7 +368,7 @@ def main():
     def report(sig, payload, msg):
         """one violation signature: known finding or VIOLATION line + replay file"""
         nonlocal nviol
-        kn = [k for k in known if k[0] == prop and k[1] == sig]
+        kn = [k for k in known if k[0] == prop and sig_matches(k[1], sig)]
         if kn:
             known_lines.append("KNOWN-FINDING: property=%s %s [%s]" % (prop, kn[0][2], sig))
             return
@@ -419,7 +427,7 @@ def main():
             if prop not in fprops:
                 continue
             sig = f["signature"]
-            kn = [k for k in known if k[0] == prop and k[1] == sig]
+            kn = [k for k in known if k[0] == prop and sig_matches(k[1], sig)]
             os.makedirs(repdir, exist_ok=True)
             path = os.path.join(repdir, ("known." if kn else "") + sanitize(sig + ("." + "_".join(map(str, rep["args"])) if rep["args"] else "") + ("." + rep["_config"] if rep["_config"] != "verif" else "") + (".tsan" if rep["_flavour"] == "tsan" else "") + (".tso" if rep.get("_tso") else "") + (".spur" if rep.get("_spur") else "")) + ".json")
             if kn:
